@@ -25,7 +25,7 @@ ASSUMPTIONS = [
 ]
 MIN = {
     "quick": {"partition": 10000, "contract_partition": 10000, "names": 10000, "tandem_adjacent": 300,
-              "natural_order": 10000, "order_independent": 1500, "deletion_placeholders": 10000,
+              "natural_order": 10000, "order_independent": 800, "deletion_placeholders": 10000,
               "both_nonempty": 8000},
     "thorough": {"partition": 300000, "contract_partition": 300000, "names": 300000,
                  "tandem_adjacent": 10000, "natural_order": 300000, "order_independent": 30000,
